@@ -13,7 +13,10 @@ pub enum IOp {
     Nth(usize),
 }
 
-const TERMINALS: [&str; 8] = ["drain", "count", "last", "size_hint", "fold", "skip(1)", "step_by(2)", "nth(1) after skip(2)"];
+const TERMINALS: [&str; 14] = [
+    "drain", "count", "last", "size_hint", "fold", "skip(1)", "step_by(2)", "nth(1) after skip(2)",
+    "for_each", "collect::<Vec>", "find(none) then next", "position(second)", "all(true)/any(false)", "by_ref().take(1) then drain",
+];
 
 /// `mk` builds a fresh real iterator; `proj` turns its items into comparable values;
 /// `model` is the list of values the iterator must yield.  Returns the number of
@@ -54,7 +57,13 @@ where
     }
     let mut reported = 0;
     for ops in &seqs {
+        // the capped drain runs first; if the iterator does not terminate after this prefix, the consumers
+        // that cannot be capped (count, last, collect, for_each, find, all) are not run on it
+        let mut drain_terminates = true;
         for (ti, term) in TERMINALS.iter().enumerate() {
+            if !drain_terminates && matches!(ti, 1 | 2 | 4 | 8 | 9 | 10 | 12) {
+                continue;
+            }
             traces += 1;
             out.checks += 1;
             out.tick();
@@ -132,7 +141,70 @@ where
                     })),
                     5 => Ok(it.skip(1).take(cap).map(proj).collect()),
                     6 => Ok(it.step_by(2).take(cap).map(proj).collect()),
-                    _ => Ok(it.skip(2).nth(1).map(proj).into_iter().collect()),
+                    7 => Ok(it.skip(2).nth(1).map(proj).into_iter().collect()),
+                    8 => {
+                        let mut v = Vec::new();
+                        it.for_each(|x| {
+                            if v.len() <= cap {
+                                v.push(proj(x));
+                            }
+                        });
+                        Ok(v)
+                    }
+                    9 => {
+                        let all: Vec<X> = it.collect();
+                        Ok(all.into_iter().take(cap + 1).map(proj).collect())
+                    }
+                    10 => {
+                        // a search that matches nothing consumes everything
+                        let mut seen = 0usize;
+                        let f = it.find(|_| {
+                            seen += 1;
+                            false
+                        });
+                        if f.is_none() && seen == rest.len() && it.next().is_none() {
+                            Ok(rest.to_vec())
+                        } else {
+                            Err(format!("find(|_| false) visited {seen} items (want {}), returned {}", rest.len(), if f.is_some() { "Some" } else { "None" }))
+                        }
+                    }
+                    11 => {
+                        let mut k = 0usize;
+                        let p = it.position(|_| {
+                            k += 1;
+                            k == 2
+                        });
+                        let want_p = if rest.len() >= 2 { Some(1) } else { None };
+                        if p == want_p {
+                            // what is left after the match
+                            Ok(rest.iter().take(if rest.len() >= 2 { 2 } else { rest.len() }).cloned().chain(it.take(cap).map(proj)).collect())
+                        } else {
+                            Err(format!("position(second item) = {p:?}, want {want_p:?}"))
+                        }
+                    }
+                    12 => {
+                        let mut n1 = 0usize;
+                        let a = it.all(|_| {
+                            n1 += 1;
+                            true
+                        });
+                        if a && n1 == rest.len() {
+                            Ok(rest.to_vec())
+                        } else {
+                            Err(format!("all(|_| true) = {a} after {n1} items (want {})", rest.len()))
+                        }
+                    }
+                    _ => {
+                        let first: Vec<T> = it.by_ref().take(1).map(proj).collect();
+                        let mut v = first;
+                        while let Some(x) = it.next() {
+                            v.push(proj(x));
+                            if v.len() > cap {
+                                break;
+                            }
+                        }
+                        Ok(v)
+                    }
                 };
                 (items, tail)
             });
@@ -151,6 +223,12 @@ where
                 }
                 Err(_) => false,
             };
+            if ti == 0 && matches!(&got, Ok((_, Err(e))) if e.starts_with("does not terminate")) {
+                drain_terminates = false;
+            }
+            if ti == 0 && got.is_err() {
+                drain_terminates = false;
+            }
             if !ok {
                 reported += 1;
                 if reported <= 3 {
